@@ -995,6 +995,53 @@ def _d3_plan(r, A, st, S):
              % shown, where)
 
 
+def _pairs_generator(idx, fi, e):
+    """For `dict(helper(symbols, sample_from))`: True if the helper is a generator that walks its first argument and yields
+    (symbol, <second argument>[symbol].config['depends']) exactly for the DependentSampler entries; False if it is a helper
+    that is not read that way; None if e is not such a call."""
+    if not (isinstance(e, ast.Call) and isinstance(e.func, ast.Name) and e.func.id == 'dict' and len(e.args) == 1 and not e.keywords
+            and isinstance(e.args[0], ast.Call)):
+        return None
+    call = e.args[0]
+    try:
+        targets, how = idx.resolve_call(getattr(fi, 'original', fi), call)
+    except Exception:
+        return None
+    fts = [t for t in targets if hasattr(t, 'node')]
+    if len(fts) != 1:
+        return None
+    h = fts[0]
+    try:
+        bound = X.bind_call(call, list(h.params))
+    except AnalysisError:
+        return False
+    if len(h.params) != 2 or not X.is_name(bound.get(h.params[0]), 'symbols') or not X.is_name(bound.get(h.params[1]), 'sample_from'):
+        return False
+    P0, P1 = h.params
+    body = _body(h.node.body)
+    yields = [n for n in ast.walk(h.node) if isinstance(n, (ast.Yield, ast.YieldFrom))]
+    if len(body) != 1 or not isinstance(body[0], ast.For) or not X.is_name(body[0].iter, P0) or not isinstance(body[0].target, ast.Name) \
+            or len(yields) != 1 or not isinstance(yields[0], ast.Yield) or body[0].orelse \
+            or any(isinstance(x, (ast.Break, ast.Return)) for x in ast.walk(body[0])):
+        return False
+    S = body[0].target.id
+    val = lib.inline_locals(yields[0].value, h.node) if yields[0].value is not None else None
+    if not (isinstance(val, ast.Tuple) and len(val.elts) == 2 and X.is_name(val.elts[0], S)
+            and X.m("%s[%s].config['depends']" % (P1, S), val.elts[1]) is not None):
+        return False
+    ystmt = lib.enclosing_stmt(yields[0])
+    for t in [x for x in ast.walk(body[0]) if isinstance(x, ast.If)]:
+        test = nf.canon(lib.inline_locals(t.test, h.node))
+        pos = X.m("isinstance(%s[%s], DependentSampler)" % (P1, S), test) is not None
+        neg = X.m("not isinstance(%s[%s], DependentSampler)" % (P1, S), test) is not None
+        if (pos and X.controlled_by(h, t, True, ystmt)) or (neg and X.controlled_by(h, t, False, ystmt)):
+            left = getattr(idx, 'unreviewed', None)
+            if left and h.qualname in left:
+                left.remove(h.qualname)
+            return True
+    return False
+
+
 def d2_keys(ctx, idx):
     r = ctx.rule('D2.KEYS', 'every sample dict = copy of the unshadowed constants + a draw for every independent symbol + every '
                  'dependent (loop exit), made afresh inside the per-sample loop', floor=8)
@@ -1113,7 +1160,13 @@ def d2_keys(ctx, idx):
             wdefs = A.assigns(src_.id)
         cands = {'symbols'} | {n for n in (x.id for x in ast.walk(wdefs[0].value) if isinstance(x, ast.Name)) if subset_polarity(n) in (1, -1)}
         cw = _comp_over(wdefs[0].value, cands)
-        if cw is None or not isinstance(cw[0], ast.DictComp):
+        gen_ok = _pairs_generator(idx, fi, wdefs[0].value)
+        if gen_ok is not None:
+            if gen_ok and X.in_subtree(wsite, A.sample_loop):
+                r.ok(construct_w, short(wdefs[0].value, 90), lib.loc(fi, wdefs[0]))
+            else:
+                r.undecided(construct_w, 'generator of (symbol, depends) pairs not recognised: %s' % short(wdefs[0].value), lib.loc(fi, wdefs[0]))
+        elif cw is None or not isinstance(cw[0], ast.DictComp):
             r.undecided(construct_w, 'definition not recognised: %s' % short(wdefs[0].value), lib.loc(fi, wdefs[0]))
         else:
             comp, key, ifs, srcname = cw
@@ -1799,12 +1852,17 @@ def _helper_view(idx, qualname, how):
     partly = set((getattr(idx, 'normalization', None) or {}).get('inlined', {}) or {})
     view, done = how(idx, fi0, only=set(getattr(idx, 'unreviewed', None) or []) | partly)
     X.settle_unreviewed(idx, done, {fi0.qualname})
+    view = X.scalarize(idx, view)
     cache[qualname] = view
     return view
 
 
 def gvl_view(idx):
-    return _helper_view(idx, MM + '.generate_variable_list', X.inline_straight_calls)
+    def how(idx_, fi_, only=None):
+        v1, d1 = X.inline_straight_calls(idx_, fi_, only=only)
+        v2, d2 = X.inline_generator_loops(idx_, v1, only=only)
+        return v2, set(d1) | set(d2)
+    return _helper_view(idx, MM + '.generate_variable_list', how)
 
 
 def _bound_to_call(fi, name, callee):
@@ -1934,7 +1992,7 @@ def d5_numbered(ctx, idx):
             X.absent(r, construct, 'no sampler is registered for the numbered instance: gen_symbols_samples fails with KeyError', lib.loc(fi, loop),
                      understood=X.only_calls([loop], {'match', 'fullmatch', 'search', 'groups', 'append'}))
         else:
-            k, v = stores[0][1]['_K'], stores[0][1]['_V']
+            k, v = stores[0][1]['_K'], X.local_value(fn, stores[0][1]['_V'], stores[0][0])
             probs = []
             if X.is_name(k, G2):
                 probs.append('the sampler is stored under the head `%s` instead of the full name' % G2)
@@ -2187,7 +2245,7 @@ def d6_siblings(ctx, idx):
     r = ctx.rule('D6.SIBLINGS', 'gen_var_and_func_samples: siblings declared, empty ones refused (MissingInput) before '
                  'DependentSampler(formula=<theirs>); all expressions searched; argument roles of gen_symbols_samples', floor=8)
     with r:
-        fi = idx.func(MM + '.gen_var_and_func_samples')
+        fi = X.scalarize(idx, idx.func(MM + '.gen_var_and_func_samples'))
         fn = fi.node
         gv = [s for s, b in X.find_stmts(fn, "_VARS, _SF = self.generate_variable_list(_E)")]
         if len(gv) != 1:
@@ -2243,7 +2301,25 @@ def d6_siblings(ctx, idx):
                                 isinstance(a_, ast.Attribute) and a_.attr in ('values', 'items') for a_ in ast.walk(pair.elts[1].body)):
                         table_ok = True
                         branches = [lp]
-        if table_ok:
+        cond_ok = None
+        if not branches and not table_ok:
+            # one extension per entry whose value is a chain of conditional expressions on the entry's type
+            for lp in [l for l in walk_own(fn) if isinstance(l, ast.For) and isinstance(l.target, ast.Name) and not X.in_subtree(gv[0], l)
+                       and X.dominates(fi, l, gv[0])]:
+                e_ = lp.target.id
+                for x in ast.walk(lp):
+                    val = x.value if isinstance(x, ast.AugAssign) and isinstance(x.target, ast.Name) and x.target.id in EXS else (
+                        x.args[0] if isinstance(x, ast.Call) and isinstance(x.func, ast.Attribute) and x.func.attr == 'extend'
+                        and isinstance(x.func.value, ast.Name) and x.func.value.id in EXS and len(x.args) == 1 else None)
+                    while isinstance(val, ast.IfExp):
+                        if X.m("isinstance(%s, dict)" % e_, val.test) is not None:
+                            cond_ok = (lp, any(isinstance(a_, ast.Attribute) and a_.attr in ('values', 'items') and X.is_name(a_.value, e_)
+                                               for a_ in ast.walk(val.body)))
+                            break
+                        val = val.orelse
+        if cond_ok is not None and cond_ok[1]:
+            r.ok(construct, 'conditional expression: dict -> its values', lib.loc(fi, cond_ok[0]))
+        elif table_ok:
             r.ok(construct, 'dispatch table: dict -> its values', lib.loc(fi, branches[0]))
         elif not branches:
             r.undecided(construct, 'no isinstance(entry, dict) branch before generate_variable_list', fi.loc)
@@ -2259,6 +2335,14 @@ def d6_siblings(ctx, idx):
         if len(ds) != 1:
             raise AnalysisError('gen_var_and_func_samples: expected one DependentSampler(...) construction')
         dst = lib.enclosing_stmt(ds[0])
+        dst_pat = None
+        if isinstance(dst, ast.Assign) and len(dst.targets) == 1 and isinstance(dst.targets[0], ast.Name) and dst.value is ds[0]:
+            # the sampler is bound to a local first and stored by a later statement of the same block
+            for st_, b_ in X.find_stmts(fn, "%s[_KEY] = %s" % (SF, dst.targets[0].id), own=False):
+                if X.local_value(fn, ast.Name(id=dst.targets[0].id, ctx=ast.Load()), st_) is ds[0]:
+                    dst_pat = ast.copy_location(ast.Assign(targets=st_.targets, value=ds[0]), st_)
+                    dst = st_
+                    break
         loop = X.enclosing_loop(dst)
         K = E = None
         value_pats = []
@@ -2288,9 +2372,9 @@ def d6_siblings(ctx, idx):
         vtext = value_pats[0]
         understood = X.only_calls([loop], {'append', 'DependentSampler', 'MissingInput', 'items', 'format'})
         construct = 'gen_var_and_func_samples: a sibling becomes DependentSampler(formula=<its formula>) under its own name'
-        sb = X.m(X.spat("%s[_KEY] = DependentSampler(formula=_F)" % SF), dst)
+        sb = X.m(X.spat("%s[_KEY] = DependentSampler(formula=_F)" % SF), dst_pat or dst)
         if sb is None:
-            sb = X.m(X.spat("%s[_KEY] = DependentSampler({'formula': _F})" % SF), dst)
+            sb = X.m(X.spat("%s[_KEY] = DependentSampler({'formula': _F})" % SF), dst_pat or dst)
         pairs = None
         if sb is None:
             # (name, sampler) pairs collected in a list that is merged into the sampler table afterwards
@@ -2342,7 +2426,7 @@ def d6_siblings(ctx, idx):
             res = nf.classify(["%s == ''" % v for v in value_pats] + ["not %s" % v for v in value_pats], t.test)
             verdict(r, construct, res, lib.loc(fi, t), short(t.test), expected="entry[k] == ''")
             ok, classes = X.body_raises(t.body)
-            r.check(ok and classes == {'MissingInput'} and X.dominates(fi, t, dst), construct + ' [class, order]', 'MissingInput, before DependentSampler',
+            r.check(ok and classes == {'MissingInput'} and X.dominates(fi, t, lib.enclosing_stmt(ds[0])), construct + ' [class, order]', 'MissingInput, before DependentSampler',
                     'the check raises %s / does not precede the construction of the sampler' % (sorted(classes) or 'nothing'), lib.loc(fi, t))
         # gen_symbols_samples calls
         calls = lib.calls_named(fn, 'gen_symbols_samples')
@@ -2547,6 +2631,10 @@ _W6_MID = ('    pruned_constants = {sym: constants[sym] for sym in constants if 
 _W6_LOOP = ('        unevaluated_dependents = {\n            symbol: sample_from[symbol].config[\'depends\'] for symbol in symbols\n            if isinstance(sample_from[symbol], DependentSampler)\n        }\n        while unevaluated_dependents:\n            progress_made = False\n            for symbol, dependencies in list(unevaluated_dependents.items()):\n                if is_subset(dependencies, sample_dict):\n                    sample_dict[symbol] = sample_from[symbol].compute_sample(\n                        sample_dict, functions, suffixes)\n                    del unevaluated_dependents[symbol]\n                    progress_made = True\n\n            if not progress_made:\n                # Two possible causes\n                # 1: Depends on variables that are undefined\n                # Check for this first\n                all_depends = set()\n                for symbol, dependencies in list(unevaluated_dependents.items()):\n                    for item in dependencies:\n                        all_depends.add(item)\n                bad_items = []\n                for item in all_depends:\n                    if item not in unevaluated_dependents and item not in sample_dict:\n                        bad_items.append(item)\n                if bad_items:\n                    bad_symbols = ", ".join(sorted(bad_items))\n                    raise ConfigError("DependentSamplers depend on undefined quantities: " +\n                                      bad_symbols)\n\n                # 2: Circular dependencies\n                bad_symbols = ", ".join(sorted(unevaluated_dependents.keys()))\n                raise ConfigError("Circularly dependent DependentSamplers detected: " +\n                                  bad_symbols)\n\n', '        unevaluated_dependents = dependents.copy()\n        while unevaluated_dependents:\n            if not evaluate_ready_dependents(unevaluated_dependents, sample_dict,\n                                             sample_from, functions, suffixes):\n                report_stalled_dependents(unevaluated_dependents, sample_dict)\n\n')
 _W6_SLIP = '            if any(item in pending for item in dependencies if item != symbol)]\n'
 
+_W6R_GEN = ('def gen_symbols_samples(symbols, samples, sample_from, functions, suffixes, constants):\n', "def _dependent_items(symbols, sample_from):\n    for symbol in symbols:\n        sampler = sample_from[symbol]\n        if @@NOT@@isinstance(sampler, DependentSampler):\n            yield symbol, sampler.config['depends']\n\ndef gen_symbols_samples(symbols, samples, sample_from, functions, suffixes, constants):\n")
+_W6R_PENDING = ("        unevaluated_dependents = {\n            symbol: sample_from[symbol].config['depends'] for symbol in symbols\n            if isinstance(sample_from[symbol], DependentSampler)\n        }\n", '        unevaluated_dependents = dict(_dependent_items(symbols, sample_from))\n')
+_W6R_FRESH = ('        sample_dict = pruned_constants.copy()\n        sample_dict.update({\n            symbol: sample_from[symbol].gen_sample() for symbol in independent\n        })\n', '        fresh = pruned_constants.copy()\n        fresh.update({\n            symbol: sample_from[symbol].gen_sample() for symbol in independent\n        })\n        sample_dict = fresh\n')
+
 MUTANTS = [
     Mutant('stall-report-silent-for-self-reference', SAMPLING, [(_W6_HELPERS[0], _W6_HELPERS[1] % _W6_SLIP), _W6_MID, _W6_LOOP], None, 'D1'),
     Mutant('partition-loop-branches-swapped', SAMPLING, [(_W5R_SPLIT[0][0], _W5R_SPLIT[0][1].replace('dependent.append(symbol)\n        else:\n            independent.append(symbol)', 'independent.append(symbol)\n        else:\n            dependent.append(symbol)')), _W5R_SPLIT[1], _W5R_SPLIT[2]], None, 'D2'),
@@ -2614,6 +2702,7 @@ MUTANTS = [
 ]
 
 BENIGN = [
+    Benign('pending-from-pairs-generator', SAMPLING, [(_W6R_GEN[0], _W6R_GEN[1].replace('@@NOT@@', '')), _W6R_PENDING, _W6R_FRESH], None),
     Benign('stall-report-as-cause-table', SAMPLING, [(_W6_HELPERS[0], _W6_HELPERS[1] % _W6_SLIP.replace(' if item != symbol', '')), _W6_MID, _W6_LOOP], None),
     Benign('partition-loop-and-keys-loop', SAMPLING, _W5R_SPLIT, None),
     Benign('numbered-matches-from-helper', MH, _W5R_MATCH, None),
